@@ -363,6 +363,14 @@ FM_Leaves == <<[p |-> pA, vals |-> {I(3)}, extra |-> FALSE],
                [p |-> pSX, vals |-> {I(4)}, extra |-> FALSE],
                [p |-> pB, vals |-> {I(2)}, extra |-> FALSE]>>
 
+\* family "illsorted" (C04, C10, C11): bare options over dictionaries in which a prefix of the key holds a scalar
+FI_Kinds == {"opt", "val"}
+FI_Paths == {pSX, <<"S">>, <<"S", "X", "Y">>}
+FI_Consts == {I(5)}
+FI_Leaves == <<[p |-> <<"S">>, vals |-> {I(3), Lv(<<I(1)>>)}, extra |-> FALSE],
+               [p |-> pSX, vals |-> {I(1)}, extra |-> FALSE],
+               [p |-> pA, vals |-> {I(0)}, extra |-> TRUE]>>
+
 \* family "cases" (C05, C12): case-when with constant and option-dependent, possibly raising predicates
 FCS_Kinds == {"val", "opt", "pred", "case"}
 FCS_Paths == {pA, pB}
